@@ -242,4 +242,35 @@ func firstLine(s string) string {
 	return s
 }
 
-func cmdSelftest(args []string) { fmt.Println("TODO") }
+// cmdSelftest runs the engine on the smoke harnesses: every assertion that must
+// hold is discharged, and exactly the two deliberately wrong assertions are
+// violated (the engine can both prove and refute; the hash model is not vacuous).
+func cmdSelftest(args []string) {
+	overlay := map[string]string{"/verif/rt": "zzverif/rt", "/verif/models": "zzverif/models", "/verif/harness/smoke": "zzverif/smoke"}
+	pkg := "github.com/bbva/qed/zzverif/smoke"
+	prog, _, _, err := loadProgram(overlay, []string{pkg}, "verif")
+	if err != nil {
+		fmt.Println("selftest: load failed:", err)
+		os.Exit(1)
+	}
+	want := map[string]string{"Arith": "sum-bound-wrong", "Hash": "free-can-equal"}
+	ok := true
+	for entry, label := range want {
+		for _, solver := range []string{"z3", "z3-new", "cvc5"} {
+			cfg := baseConfig()
+			cfg.Workers = 4
+			cfg.Solver = solver
+			sum := Explore(prog, findFunc(prog, pkg, entry), cfg)
+			var got []string
+			for _, v := range sum.Violations {
+				got = append(got, v.Label)
+			}
+			good := len(got) == 1 && got[0] == label && len(sum.Inconclusive) == 0 && sum.AssertsSym > 0
+			fmt.Printf("selftest %-5s %-6s paths=%d discharged=%d violated=%v inconclusive=%d : %v\n", entry, solver, sum.Paths, sum.AssertsSym, got, len(sum.Inconclusive), good)
+			ok = ok && good
+		}
+	}
+	if !ok {
+		os.Exit(1)
+	}
+}
